@@ -15,6 +15,7 @@ Clauses:
 -/
 import Neutrino.Lemmas.UtxoPerm
 import Neutrino.Lemmas.UtxoExact
+import Neutrino.Lemmas.UtxoReaders
 import Neutrino.Gen.Utxo
 namespace Neutrino.Utxo
 
@@ -149,6 +150,60 @@ theorem C10_result_idempotent_iter (o : ReqObj) (r : Res) (h : (o.result).2 = so
 example : let o := ({} : ReqObj).deliver (.ok (.spent 2 0 2))
     o.result.2 = some (.ok (.spent 2 0 2)) ∧ o.result.1.result.2 = some (.ok (.spent 2 0 2)) ∧
     (o.result.1.deliver (.err .shutdown)).result.2 = some (.ok (.spent 2 0 2)) := by decide
+
+/-! ### any number of readers of one request, in any interleaving with the deliveries
+(`C10_result_idempotent` generalised: `Model/UtxoReaders.lean`) -/
+
+/-- **Every `Result` call on a request returns the same answer**: whatever the number of readers, the
+order in which they complete and the deliveries in between (a second delivery is dropped or sits in
+the channel unread), any two answers handed out are equal. -/
+theorem C10_readers_agree (evs : List REv) :
+    ∀ p ∈ (runR {} evs).2, ∀ q ∈ (runR {} evs).2, p.2 = q.2 :=
+  answers_agree {} evs
+
+/-- **... and it is the first delivery**, i.e. (by `C10_answer`) the true fate of the outpoint. -/
+theorem C10_readers_first (pre post : List REv) (r : Res) (hpre : ∀ e ∈ pre, ∃ i, e = .read i) :
+    ∀ p ∈ (runR {} (pre ++ .deliver r :: post)).2, p.2 = r := by
+  have h0 : ∀ (l : List REv), (∀ e ∈ l, ∃ i, e = REv.read i) → runR {} l = ({}, []) := by
+    intro l
+    induction l with
+    | nil => intro _; rfl
+    | cons e es ih =>
+      intro h
+      obtain ⟨i, rfl⟩ := h e (List.mem_cons_self ..)
+      have := ih (fun e he => h e (List.mem_cons_of_mem _ he))
+      simp [runR, stepR, ReqObj.result, this]
+  intro p hp
+  rw [runR_append, h0 pre hpre] at hp
+  simp only [List.nil_append] at hp
+  have ha : (stepR {} (.deliver r)).1.answer = some r := by simp [stepR, ReqObj.deliver, ReqObj.answer]
+  have := (answer_stable_run _ r post ha).2
+  simp only [runR, stepR, Option.toList, List.nil_append] at hp
+  exact this p hp
+
+/-- **No reader hangs once the request is answered**: after a delivery, however many readers have come
+and gone and whatever else was delivered, the next attempt of ANY reader completes. -/
+theorem C10_readers_none_hang (pre post : List REv) (r : Res) (i : Nat) :
+    ∃ a, (i, a) ∈ (runR {} (pre ++ .deliver r :: post ++ [.read i])).2 := by
+  have hsome := deliver_answers (runR {} pre).1 r
+  obtain ⟨a, ha⟩ := Option.isSome_iff_exists.mp hsome
+  have hst := (answer_stable_run _ a post ha).1
+  refine ⟨a, ?_⟩
+  rw [show pre ++ REv.deliver r :: post ++ [REv.read i] = pre ++ (REv.deliver r :: (post ++ [REv.read i])) by simp]
+  rw [runR_append]
+  simp only [List.mem_append]
+  right
+  simp only [runR]
+  rw [List.mem_append]; right
+  rw [runR_append]
+  simp only [List.mem_append]
+  right
+  simp only [runR, read_completes _ a i hst, Option.toList, List.append_nil]
+  exact List.mem_singleton.mpr rfl
+
+/-- three readers, two of them inside `Result` before the delivery, a second delivery in between: all get the first -/
+example : (runR {} [.read 1, .read 2, .deliver (.ok (.spent 2 0 2)), .read 2, .deliver (.err .shutdown), .read 1, .read 3]).2 =
+    [(2, .ok (.spent 2 0 2)), (1, .ok (.spent 2 0 2)), (3, .ok (.spent 2 0 2))] := by decide
 
 /-! ### every request is answered -/
 
